@@ -71,13 +71,15 @@ def _disjoint_lit(lit, var: str):
         return x == f"{var}.start"
 
     def is_last_end(x):
-        return x.endswith("[-1].end") or x in ("last_end", "last.end", "last_match.end", "previous.end")
+        return x.endswith("[-1].end") or x == "<fresh-last-end>" or x == "<stale-last-end>"
     if is_last_end(l) and is_start(r):
         l, r, op = r, l, flip[op]
     if not (is_start(l) and is_last_end(r)):
         return None
     if not pol:
         op = neg[op]
+    if "<stale-last-end>" in (l, r):
+        return "stale"
     if op is ast.GtE:
         return "exact"
     if op is ast.Gt:
@@ -85,10 +87,29 @@ def _disjoint_lit(lit, var: str):
     return "wrong"
 
 
+def _resolve_last_end_names(fi: FuncInfo, site, test):
+    """Replace local names that hold `<matches>[-1].end` by a marker that says whether the
+    value is recomputed in the iteration that reports the match (fresh) or was taken
+    before the loop that appends to the matches (stale)."""
+    import copy
+    from ..core import local_defs
+    loops = enclosing(fi, site, (ast.For, ast.While))
+
+    class R(ast.NodeTransformer):
+        def visit_Name(self, n):
+            defs = [(v, st) for v, st in local_defs(fi, n.id) if v is not None]
+            if defs and all("[-1].end" in unparse(v) for v, st in defs):
+                inner = loops[0] if loops else None
+                fresh = inner is not None and all(any(st is x for x in ast.walk(inner)) for v, st in defs)
+                return ast.Name(id="<fresh-last-end>" if fresh else "<stale-last-end>", ctx=ast.Load())
+            return n
+    return R().visit(copy.deepcopy(test))
+
+
 def _guard_status(fi: FuncInfo, site, var: str) -> str:
     best = "missing"
     for g in guards_of(fi, site):
-        f = _flatten(g.test, g.polarity)
+        f = _flatten(_resolve_last_end_names(fi, site, g.test), g.polarity)
         lits = [f] if f[0] == "lit" else f[1] if f[0] == "all" else None
         if lits is not None:
             for l in lits:
@@ -125,6 +146,9 @@ def rule_R1(ctx, prj, fi: FuncInfo, sites):
         elif st == "strict":
             ctx.viol("R1", key, fi.site(c), f"the guard requires {var}.start > matches[-1].end: a match that begins exactly where "
                      f"the previous one ended is dropped (ends are exclusive)")
+        elif st == "stale":
+            ctx.viol("R1", key, fi.site(c), f"the disjointness guard compares {var}.start with an end that was read before this loop started; "
+                     f"matches reported inside the loop are not taken into account, so overlapping matches are reported")
         elif st == "wrong":
             ctx.viol("R1", key, fi.site(c), f"the comparison between {var}.start and the last match's end does not express disjointness")
         else:
